@@ -134,8 +134,14 @@ def pipe_configs(quick: bool) -> list[dict]:
             picks = [(mi + si) % 3] if quick else [0, 1, 2]
             for m in picks:
                 st, di = STRATS[(k + m) % len(STRATS)]
+                mode = modes[m]
+                if mod == "c_numeric" and mode == "MUTATION_ANALYSIS":
+                    # mutants of c_numeric's while loop do not terminate; every one of them leaves an abandoned
+                    # spinning thread behind and the analysis exceeds any sensible time limit (C21 observed the
+                    # same): this module gets plain assertion generation instead
+                    mode = "SIMPLE"
                 out.append({"module": mod, "seed": seed + mi, "algorithm": algs[(mi + m + si) % 3], "iterations": 4,
-                            "assertions": modes[m], "metrics": "BRANCH", "population": 5,
+                            "assertions": mode, "metrics": "BRANCH", "population": 5,
                             "min_strategy": st, "min_direction": di})
                 k += 1
     return out
